@@ -1,6 +1,6 @@
 (* Driver.v — single entry point of the executable model: one case line in, one result line out.
    Used identically by the extracted OCaml driver and by [Eval vm_compute]. *)
-From MPD Require Import Bytes Tables Show TagModel TagSpec DriverCmd DriverConn DriverFrame.
+From MPD Require Import Bytes Tables Show TagModel TagSpec DriverCmd DriverConn DriverFrame DriverTyped.
 Open Scope N_scope.
 
 Definition find_tagv (ident : bytes) : option tagv :=
@@ -92,6 +92,7 @@ Definition dispatch (line : bytes) : bytes :=
     else if is_cmd_kind kind then run_cmd kind args
     else if is_conn_kind kind then run_conn kind args
     else if is_frame_kind kind then run_frame kind args
+    else if is_typed_kind kind then run_typed kind args
     else b "unknown-kind " ++ kind
   | [] => b "empty"
   end.
